@@ -200,7 +200,7 @@ pub fn search(tier: &str, seed: u64, s: &mut Search) {
         let mut plain = plain;
         let wrapped = match kind {
             0 => {
-                let variant = (i / 3) % 4;
+                let variant = (i / 3) % 5;
                 let geo = |inner: &str| format!(r#"{hdr}<g fill="black">{inner}</g></svg>"#);
                 // a clip path linked from the clipPath element itself: it lives in the user space of the
                 // referencing element, NOT under the outer clip path's own transform
@@ -237,6 +237,23 @@ pub fn search(tier: &str, seed: u64, s: &mut Search) {
                             if use_link { r#" clip-path="url(#zl)""# } else { "" },
                             fr.join("")
                         )
+                    }
+                    4 => {
+                        // shapes reached through `use` inside the clip path, carrying markers: markers are not part of
+                        // a clip path's geometry, however the shape got there
+                        let (x0, y0) = (g.rng.range(10, w as i64 / 2), g.rng.range(10, h as i64 / 2));
+                        let (sw2, sh2) = (g.rng.range(12, w as i64 / 2), g.rng.range(12, h as i64 / 2));
+                        let d = format!("M {x0} {y0} h {sw2} v {sh2} h -{sw2} Z");
+                        let mk = format!(r#"<marker id="zmk" markerWidth="40" markerHeight="40" refX="20" refY="20" markerUnits="userSpaceOnUse" overflow="visible"><circle cx="20" cy="20" r="{}"/></marker>"#, g.rng.range(8, 25));
+                        let shape_def = format!(r##"<path id="zsh" d="{d}" marker-start="url(#zmk)" marker-mid="url(#zmk)" marker-end="url(#zmk)"/>"##);
+                        let through = match g.rng.below(3) {
+                            0 => r##"<use xlink:href="#zsh"/>"##.to_string(),
+                            1 => r##"<use xlink:href="#zsh" x="3" y="2"/>"##.to_string(),
+                            _ => shape_def.replace(r#" id="zsh""#, ""),
+                        };
+                        let off = if through.contains(r#"x="3""#) { r#" transform="translate(3 2)""# } else { "" };
+                        geometry.push(vec![vec![geo(&format!(r#"<path{off} d="{d}"/>"#))]]);
+                        format!(r#"{hdr}<defs>{defs0}{mk}{shape_def}<clipPath id="zc">{through}</clipPath></defs><g clip-path="url(#zc)"><g{tf}>{content}</g></g></svg>"#)
                     }
                     3 => {
                         // clip paths on the children of the clip path (each child cut by its own), under the outer transform
@@ -275,8 +292,28 @@ pub fn search(tier: &str, seed: u64, s: &mut Search) {
                     } else {
                         format!(r#"<rect x="{}" y="{}" width="{}" height="{}" fill="white" stroke="white" stroke-width="600"/>"#, mx + 1, my + 1, (mw - 2).max(1), (mh - 2).max(1))
                     };
+                    if (i / 6) % 3 == 2 {
+                        // the masked element (or an ancestor) is rotated / skewed: the region turns with it. Band-shaped
+                        // regions: their axis-aligned box may cover everything although the region does not
+                        let (mx, my, mw, mh) = if g.rng.chance(1, 2) { (-200i64, g.rng.range(h as i64 / 4, h as i64 / 2), 1000i64, g.rng.range(6, 20)) } else { (g.rng.range(w as i64 / 4, w as i64 / 2), -200i64, g.rng.range(6, 20), 1000i64) };
+                        let rot = format!(r#" transform="{}""#, match g.rng.below(3) {
+                            0 => format!("rotate({} {} {})", g.rng.pick(&[45, 30, -60, 17]), w / 2, h / 2),
+                            1 => format!("skewX({})", g.rng.pick(&[30, -40])),
+                            _ => format!("translate({} 0) rotate({})", w / 2, g.rng.pick(&[45, 70])),
+                        });
+                        let on_self = g.rng.chance(1, 2);
+                        plain = format!("{hdr}<defs>{defs0}</defs><g{rot}><g{tf}>{content}</g></g></svg>");
+                        geometry.push(vec![vec![format!(r#"{hdr}<g{rot} fill="black"><rect x="{mx}" y="{my}" width="{mw}" height="{mh}"/></g></svg>"#)]]);
+                        let m = format!(r#"<mask id="zm" maskUnits="userSpaceOnUse" x="{mx}" y="{my}" width="{mw}" height="{mh}"><rect x="-500" y="-500" width="2000" height="2000" fill="white"/></mask>"#);
+                        if on_self {
+                            format!(r#"{hdr}<defs>{defs0}{m}</defs><g{rot} mask="url(#zm)"><g{tf}>{content}</g></g></svg>"#)
+                        } else {
+                            format!(r#"{hdr}<defs>{defs0}{m}</defs><g{rot}><g mask="url(#zm)"><g{tf}>{content}</g></g></g></svg>"#)
+                        }
+                    } else {
                     format!(r#"{hdr}<defs>{defs0}<mask id="zm" maskUnits="userSpaceOnUse" x="{mx}" y="{my}" width="{mw}" height="{mh}">{white}</mask></defs><g mask="url(#zm)"><g{tf}>{content}</g></g></svg>"#)
                         + &format!("<!--{} {} {} {}-->", mx, my, mw, mh)
+                    }
                 }
             ,
             _ => {
@@ -326,7 +363,7 @@ pub fn search(tier: &str, seed: u64, s: &mut Search) {
         let mut inside = vec![false; (wi * hi) as usize];
         let mut outside = vec![false; (wi * hi) as usize];
         match kind {
-            0 => {
+            0 | 1 if !geometry.is_empty() => {
                 // combine the geometry images
                 let mut alpha = vec![255u8; (wi * hi) as usize];
                 let mut failed = false;
